@@ -20,4 +20,6 @@ MUTANTS = [
     dict(name="protocol-own-signature", file=V, expect="R13.1",
          old="            full_method_code = method_generator.generate(op, context)\n\n            # Parse the generated code to extract method signatures",
          new="            full_method_code = method_generator.generate(op, context)\n            full_method_code = method_generator.generate(op, context)\n\n            # Parse the generated code to extract method signatures"),
+    dict(name="mocks-without-schema-registry", file="emitters/mocks_emitter.py", expect="R13.1",
+         old="EndpointVisitor(context.parsed_schemas or {})", new="EndpointVisitor()"),
 ]
